@@ -326,7 +326,7 @@ func cmdCheck(args []string) int {
 						maxMs = o.Ms
 					}
 				}
-				if maxMs*4 <= int64(timeout)*1000 && !strings.Contains(gname, "#safe:ovf") {
+				if maxMs*3 <= int64(timeout)*1000 && !strings.Contains(gname, "#safe:ovf") {
 					fmt.Println(gname)
 				}
 			}
